@@ -107,6 +107,9 @@ func emit(cmd string, args ...interface{}) string {
 }
 
 func emitS(cmd string, as []string) string {
+	if os.Getenv("VERIF_TRACE") != "" { // debugging aid: show the record before executing it (a hang is then attributable)
+		fmt.Fprintln(os.Stderr, "TRACE", cmd, strings.Join(as, " "))
+	}
 	impl := execFor(cmd).Exec(cmd, as)
 	var sb strings.Builder
 	sb.WriteString(cmd)
